@@ -49,6 +49,11 @@ def build_image(spec):
     else:
         base = np.random.RandomState(spec['seed']).randint(0, 256, (H, W) + c, dtype=np.uint8)
     base = np.ascontiguousarray(base)
+    if layout == 'fortran':     # column-major memory: contiguous, but not C-contiguous (e.g. a transposed image)
+        img = np.asfortranarray(base)
+        if not spec.get('rw', True):
+            img.flags.writeable = False
+        return img
     img = base[:, ::2] if layout == 'colstride' else base[::2] if layout == 'rowstride' else base
     assert img.shape == (h, w) + c
     if not spec.get('rw', True):
